@@ -12,8 +12,8 @@
 EXTENDS Naturals, Sequences, FiniteSets, Json, TLC
 
 TraceLog == ndJsonDeserialize("trace.ndjson")
-VARIABLES l, log, sessions, w, tol, cstart, mem, lastOk
-tvars == <<l, log, sessions, w, tol, cstart, mem, lastOk>>
+VARIABLES l, log, sessions, w, tol, cstart, mem, lastOk, rstart
+tvars == <<l, log, sessions, w, tol, cstart, mem, lastOk, rstart>>
 ASSUME TLCSet(1, 0)
 Rec == TraceLog[l]
 IsEvent(e) == /\ l <= Len(TraceLog) /\ TraceLog[l].ev = e /\ l' = l + 1
@@ -27,34 +27,34 @@ IsSubSeq(a, b) == \* a is a subsequence of b (ids are unique)
     /\ \A i, j \in 1..Len(a) : i < j =>
           (CHOOSE x \in 1..Len(b) : b[x] = a[i]) < (CHOOSE x \in 1..Len(b) : b[x] = a[j])
 
-TraceInit == l = 1 /\ log = <<>> /\ sessions = <<>> /\ w = 0 /\ tol = 0 /\ cstart = 0 /\ mem = <<>> /\ lastOk = FALSE
-TReset == /\ IsEvent("reset") /\ log' = <<>> /\ sessions' = <<>> /\ cstart' = 0 /\ mem' = <<>> /\ lastOk' = FALSE
+TraceInit == l = 1 /\ log = <<>> /\ sessions = <<>> /\ w = 0 /\ tol = 0 /\ cstart = 0 /\ mem = <<>> /\ lastOk = FALSE /\ rstart = 0
+TReset == /\ IsEvent("reset") /\ log' = <<>> /\ sessions' = <<>> /\ cstart' = 0 /\ mem' = <<>> /\ lastOk' = FALSE /\ rstart' = 0
           /\ w' = (IF "W" \in DOMAIN Rec THEN Rec.W ELSE 0) /\ tol' = (IF "tol" \in DOMAIN Rec THEN Rec.tol ELSE 0)
 
 TAppend == /\ IsEvent("log.append")
            /\ log' = Append(log, [id |-> Rec.id, T |-> SeqToSet(Rec.T), E |-> SeqToSet(Rec.E), at |-> Rec.at])
-           /\ UNCHANGED <<sessions, w, tol, cstart, mem, lastOk>>
+           /\ UNCHANGED <<sessions, w, tol, cstart, mem, lastOk, rstart>>
 
 TPersist == /\ IsEvent("session.persist")
             /\ sessions' = [p \in DOMAIN sessions \cup {Rec.pid} |->
                               IF p = Rec.pid THEN [sid |-> Rec.sid, rooms |-> SeqToSet(Rec.rooms), at |-> Rec.at] ELSE sessions[p]]
             \* on a real server the persisted rooms are exactly the socket's rooms at that moment
             /\ (Rec.sid \in DOMAIN mem => SeqToSet(Rec.rooms) = mem[Rec.sid])
-            /\ UNCHANGED <<log, w, tol, cstart, mem, lastOk>>
+            /\ UNCHANGED <<log, w, tol, cstart, mem, lastOk, rstart>>
 
 \* room membership (hooks of the embedded in-memory adapter)
 MemOf(s) == IF s \in DOMAIN mem THEN mem[s] ELSE {}
 TRoomsAdd == /\ IsEvent("rooms.add")
              /\ mem' = [x \in DOMAIN mem \cup {Rec.sid} |-> IF x = Rec.sid THEN MemOf(Rec.sid) \cup SeqToSet(Rec.rooms) ELSE mem[x]]
-             /\ UNCHANGED <<log, sessions, w, tol, cstart, lastOk>>
+             /\ UNCHANGED <<log, sessions, w, tol, cstart, lastOk, rstart>>
 TRoomsDel == /\ IsEvent("rooms.del")
              /\ mem' = [x \in DOMAIN mem |-> IF x = Rec.sid THEN mem[x] \ {Rec.room} ELSE mem[x]]
-             /\ UNCHANGED <<log, sessions, w, tol, cstart, lastOk>>
+             /\ UNCHANGED <<log, sessions, w, tol, cstart, lastOk, rstart>>
 TRoomsDelAll == /\ IsEvent("rooms.delall")
                 /\ mem' = [x \in DOMAIN mem \ {Rec.sid} |-> mem[x]]
-                /\ UNCHANGED <<log, sessions, w, tol, cstart, lastOk>>
+                /\ UNCHANGED <<log, sessions, w, tol, cstart, lastOk, rstart>>
 
-TCleanStart == IsEvent("clean.start") /\ cstart' = Rec.now /\ UNCHANGED <<log, sessions, w, tol, mem, lastOk>>
+TCleanStart == IsEvent("clean.start") /\ cstart' = Rec.now /\ UNCHANGED <<log, sessions, w, tol, mem, lastOk, rstart>>
 
 \* a clean-up pass [cstart, now]: whatever had not expired by the end of the pass must survive,
 \* nothing is invented, the order is kept
@@ -66,16 +66,21 @@ TCleanEnd ==
     /\ \A p \in DOMAIN sessions : (sessions[p].at + w > Rec.now + tol) => p \in SeqToSet(Rec.pids)
     /\ log' = SelectSeq(log, LAMBDA e : e.id \in SeqToSet(Rec.ids))
     /\ sessions' = [p \in SeqToSet(Rec.pids) |-> sessions[p]]
-    /\ UNCHANGED <<w, tol, cstart, mem, lastOk>>
+    /\ UNCHANGED <<w, tol, cstart, mem, lastOk, rstart>>
 
 IndexOf(id) == IF \E i \in 1..Len(log) : log[i].id = id THEN CHOOSE i \in 1..Len(log) : log[i].id = id ELSE 0
+
+TRestoreStart == /\ IsEvent("session.restore.start") /\ rstart' = Rec.now
+                 /\ UNCHANGED <<log, sessions, w, tol, cstart, mem, lastOk>>
 
 \* RestoreSession: verdict and missed packets must be the specification's
 TRestore ==
     /\ IsEvent("session.restore")
     /\ LET known == Rec.pid \in DOMAIN sessions
            at == IF known THEN sessions[Rec.pid].at ELSE 0
-           surelyExpired == known /\ Rec.now > at + w + tol
+           \* the decision was taken between the call's start (rstart) and this record (Rec.now): expired for sure
+           \* only if it was so at the start, fresh for sure only if it still is at the end
+           surelyExpired == known /\ (IF rstart > 0 THEN rstart ELSE Rec.now) > at + w + tol
            surelyFresh == known /\ Rec.now < at + w - tol
            k == IndexOf(Rec.offset) IN
          /\ Rec.ok => (known /\ ~surelyExpired /\ k # 0)
@@ -85,7 +90,7 @@ TRestore ==
          /\ sessions' = IF known /\ ~Rec.ok /\ Rec.why = "expired"
                           THEN [p \in DOMAIN sessions \ {Rec.pid} |-> sessions[p]] ELSE sessions
     /\ lastOk' = Rec.ok                                    \* the verdict the socket and the client must report
-    /\ UNCHANGED <<log, w, tol, cstart, mem>>
+    /\ UNCHANGED <<log, w, tol, cstart, mem, rstart>>
 
 \* one client session end to end
 E2EOK(r) ==
@@ -100,11 +105,11 @@ E2EOK(r) ==
                       /\ (r.strict => SeqToSet(rc) \subseteq SeqToSet(r.addressed))              \* and nothing else
     /\ ~r.recovered => ~r.sameSid
 TE2E == /\ IsEvent("e2e") /\ (IF E2EOK(Rec) THEN TRUE ELSE PrintT(<<"STEP_MISMATCH", l>>))
-        /\ UNCHANGED <<log, sessions, w, tol, cstart, mem, lastOk>>
+        /\ UNCHANGED <<log, sessions, w, tol, cstart, mem, lastOk, rstart>>
 
-TNote == (IsEvent("note") \/ IsEvent("quiesce")) /\ UNCHANGED <<log, sessions, w, tol, cstart, mem, lastOk>>
+TNote == (IsEvent("note") \/ IsEvent("quiesce")) /\ UNCHANGED <<log, sessions, w, tol, cstart, mem, lastOk, rstart>>
 
-TraceNext == TReset \/ TRoomsAdd \/ TRoomsDel \/ TRoomsDelAll \/ TAppend \/ TPersist \/ TCleanStart \/ TCleanEnd \/ TRestore \/ TE2E \/ TNote
+TraceNext == TReset \/ TRoomsAdd \/ TRoomsDel \/ TRoomsDelAll \/ TAppend \/ TPersist \/ TCleanStart \/ TCleanEnd \/ TRestoreStart \/ TRestore \/ TE2E \/ TNote
 TraceSpec == TraceInit /\ [][TraceNext]_tvars
 HWM == IF l > TLCGet(1) THEN TLCSet(1, l) ELSE TRUE
 TraceAccepted == IF TLCGet(1) = Len(TraceLog) + 1 THEN TRUE
